@@ -809,9 +809,12 @@ int cif_parse_internal(struct scanner_s *scanner, int not_utf8, const char *extr
 
                 if (scanner->cif_version == 1) {
                     if (scanned_bom) {
+                        /* the BOM may no longer be in the buffer, so present a copy of it */
+                        static const UChar bom = UCHAR_BOM;
+
                         /* error: disallowed CIF 1 character */
                         FAILURE_VARIABLE = scanner->error_callback(CIF_DISALLOWED_CHAR, 1, 0,
-                                scanner->next_char - 1, 1, scanner->user_data);
+                                &bom, 1, scanner->user_data);
                         /* recover, if necessary, by ignoring the problem */
                     }
                     SET_V1(scanner);
